@@ -132,7 +132,32 @@ func verifKVRun(tag string, db DB, under DB, nOps int) {
 			vapi.Assert(tag+".delete", b.Delete(keys[ki]) == nil)
 			m.pState[ki] = 2
 		case 2: // flush
+			// one flush of the cache is one commit of the backend, and what the
+			// backend holds at that commit is the complete new content
+			// (puts and deletes together)
+			commits := 0
+			if rdb, ok := under.(*recDB); ok {
+				exp := m
+				exp.flush()
+				rdb.onFlush = func() {
+					commits++
+					ub := rdb.inner.Bucket(name)
+					vapi.Assert(tag+".backend-commit-is-atomic", ub != nil)
+					for i := range keys {
+						got := ub.Get(keys[i])
+						if exp.cPresent[i] {
+							vapi.Assert(tag+".backend-commit-is-atomic", kvMatches(got, exp.cVal[i], exp.cEmpty[i]))
+						} else {
+							vapi.Assert(tag+".backend-commit-is-atomic", got == nil)
+						}
+					}
+				}
+			}
 			vapi.Assert(tag+".flush", db.Flush() == nil)
+			if rdb, ok := under.(*recDB); ok {
+				rdb.onFlush = nil
+				vapi.Assert(tag+".one-backend-commit-per-flush", commits == 1)
+			}
 			m.flush()
 			bucketFlushed = true
 			if under != nil {
@@ -176,9 +201,9 @@ func VerifH_C17_mem() {
 // VerifH_C17_cache: CacheDB over MemDB against the same model; additionally
 // the backend's durable content after each flush.
 //
-//verif:harness prop=C17 tier=quick require=done bounds="as VerifH_C17_mem, CacheDB over MemDB"
+//verif:harness prop=C17,C03 tier=quick require=done bounds="as VerifH_C17_mem, CacheDB over MemDB; every cache flush = exactly one backend commit holding the complete new content"
 func VerifH_C17_cache() {
-	under := NewMemDB()
+	under := &recDB{inner: NewMemDB()}
 	verifKVRun("cache", NewCacheDB(under), under, 4)
 }
 
@@ -189,6 +214,6 @@ func VerifH_C17_mem5() {
 
 //verif:harness prop=C17 tier=thorough require=done bounds="as VerifH_C17_cache with sequences of 5 ops (6 ops with 1-byte values only ran 19 min clean before empty values were added)"
 func VerifH_C17_cache5() {
-	under := NewMemDB()
+	under := &recDB{inner: NewMemDB()}
 	verifKVRun("cache", NewCacheDB(under), under, 5)
 }
